@@ -420,3 +420,472 @@ Proof.
       (Nmem (num2 m1 m2) offset_minus_minutes); reflexivity.
   - now rewrite andb_false_r.
 Qed.
+
+(* ------------------------------------------------------------------ *)
+(* TM                                                                   *)
+
+Definition off_okc (o : str) : bool := nilb o || off_match o.
+
+Lemma in_range2_mono lo hi hi' a b : (hi <= hi')%N -> in_range2 lo hi a b = true -> in_range2 lo hi' a b = true.
+Proof. intros L H. destruct (in_range2_inv _ _ _ _ H) as [D R]. apply in_range2_true; auto. lia. Qed.
+
+Lemma dtv_valid_time h m s u :
+  dtv_valid (mk_dtv 1900 1 1 h m s u) = (N.leb h 23 && N.leb m 59 && N.leb s 59 && N.leb u 999999)%bool.
+Proof. unfold dtv_valid. cbn [yr mo dy hh mi ss us]. reflexivity. Qed.
+
+Lemma leb0 n : N.leb 0 n = true.
+Proof. apply N.leb_le. lia. Qed.
+
+Lemma tm_formats_ok :
+  forallb (fun f => smem (fmt_str f) tm_formats) [[TH]; [TH; TMi]; [TH; TMi; TS]; [TH; TMi; TS; Tdot; Tf]] = true.
+Proof. vm_compute. reflexivity. Qed.
+
+Lemma plus_not_minus sg : is_c c_plus sg = true -> is_c c_minus sg = false.
+Proof. intros H. apply beqb_eq in H. subst. reflexivity. Qed.
+
+Lemma tm_ctor_ok allowed f o prec :
+  smem (fmt_str f) allowed = true -> 1 <= prec <= 4 -> off_okc o = true -> tm_ctor allowed f o prec = Ok tt.
+Proof.
+  intros Hf Hp Ho. unfold tm_ctor, dt_ctor. rewrite Hf. cbn [bind].
+  assert ((1 <=? prec) && (prec <=? 4) = true) as ->.
+  { apply andb_true_intro. split; apply Nat.leb_le; lia. }
+  cbn [negb]. unfold off_okc in Ho. destruct (nilb o) eqn:En; [reflexivity|]. cbn [orb] in Ho.
+  destruct o as [|sg [|h1 [|h2 [|m1 [|m2 [|x o]]]]]]; try discriminate.
+  cbn [length Nat.eqb negb drop skipn].
+  rewrite strptime_exact by reflexivity.
+  cbn [map group_of width slices take drop firstn skipn forallb2 set_fields set_field dtv0 yr mo dy hh mi ss us].
+  rewrite matched_H, matched_M, andb_true_r.
+  unfold off_match in Ho. fold (rx_plus_h h1 h2) in Ho. fold (rx_minus_h h1 h2) in Ho. fold (rx_min m1 m2) in Ho.
+  apply andb_prop in Ho. destruct Ho as [Hh Hm].
+  pose proof (implb_true _ _ (rx_min_range m1 m2) Hm) as Rm.
+  destruct (in_range2_inv _ _ _ _ Rm) as [Dm Bm].
+  apply orb_prop in Hh. destruct Hh as [Hh|Hh]; apply andb_prop in Hh; destruct Hh as [Hs Hh].
+  - pose proof (implb_true _ _ (rx_plus_h_range h1 h2) Hh) as Rh.
+    destruct (in_range2_inv _ _ _ _ Rh) as [Dh Bh].
+    rewrite (in_range2_mono 0 14 23 h1 h2) by (auto; lia). rewrite Rm. cbn [andb].
+    rewrite (txt_int2 _ _ Dh), (txt_int2 _ _ Dm), dtv_valid_time.
+    assert (N.leb (num2 h1 h2) 23 = true) as -> by (apply N.leb_le; lia).
+    assert (N.leb (num2 m1 m2) 59 = true) as -> by (apply N.leb_le; lia).
+    rewrite !leb0. cbn [andb]. cbn [hh]. rewrite Hs, (plus_not_minus _ Hs).
+    assert (N.ltb 14 (num2 h1 h2) = false) as -> by (apply N.ltb_ge; lia). reflexivity.
+  - pose proof (implb_true _ _ (rx_minus_h_range h1 h2) Hh) as Rh.
+    destruct (in_range2_inv _ _ _ _ Rh) as [Dh Bh].
+    rewrite (in_range2_mono 0 12 23 h1 h2) by (auto; lia). rewrite Rm. cbn [andb].
+    rewrite (txt_int2 _ _ Dh), (txt_int2 _ _ Dm), dtv_valid_time.
+    assert (N.leb (num2 h1 h2) 23 = true) as -> by (apply N.leb_le; lia).
+    assert (N.leb (num2 m1 m2) 59 = true) as -> by (apply N.leb_le; lia).
+    rewrite !leb0. cbn [andb]. cbn [hh]. rewrite Hs.
+    assert (is_c c_plus sg = false) as -> by (apply beqb_eq in Hs; subst; reflexivity).
+    assert (N.ltb 12 (num2 h1 h2) = false) as -> by (apply N.ltb_ge; lia). reflexivity.
+Qed.
+
+Definition tm_of_body (allowed : list str) (body off : str) : result str :=
+  (do fp <- timestamp_format body; do v <- strptime body (fst fp);
+   do _ <- tm_ctor allowed (fst fp) off (snd fp); Ok (encode_tm v (fst fp) off (snd fp)))%res.
+
+Lemma impl_TM_body s : impl_TM s = tm_of_body tm_formats (fst (split_offset s)) (snd (split_offset s)).
+Proof.
+  unfold impl_TM, get_timestamp_info, tm_of_body. destruct (split_offset s) as [b o]. cbn [fst snd].
+  destruct (timestamp_format b) as [[f p]|e]; cbn [bind fst snd]; [|reflexivity].
+  destruct (strptime b f); reflexivity.
+Qed.
+
+Lemma digits_val_lt ds : all_dig ds = true -> (digits_val ds < 10 ^ N.of_nat (length ds))%N.
+Proof.
+  induction ds as [|d ds IH] using rev_ind; intros H; [cbn; lia|].
+  unfold all_dig in H. rewrite forallb_app in H. apply andb_prop in H. destruct H as [Hds Hd]. cbn in Hd.
+  rewrite andb_true_r in Hd. pose proof (implb_true _ _ (dv_le9 d) Hd) as L. apply N.leb_le in L.
+  rewrite digits_val_app, app_length. cbn [length]. rewrite Nat2N.inj_add, N.pow_add_r. specialize (IH Hds).
+  change (10 ^ N.of_nat 1)%N with 10%N. lia.
+Qed.
+
+Lemma frac_us_ok f : all_dig f = true -> length f <= 6 ->
+  (frac_us f <= 999999)%N /\ padn 6 (frac_us f) = f ++ repeat c_0 (6 - length f).
+Proof.
+  intros Hd Hl. unfold frac_us.
+  assert (Ha : all_dig (f ++ repeat c_0 (6 - length f)) = true).
+  { unfold all_dig. rewrite forallb_app. fold (all_dig f). rewrite Hd. cbn [andb].
+    apply forallb_forall. intros x Hx. apply repeat_spec in Hx. subst. reflexivity. }
+  assert (Hn : length (f ++ repeat c_0 (6 - length f)) = 6) by (rewrite app_length, repeat_length; lia).
+  split.
+  - pose proof (digits_val_lt _ Ha) as L. rewrite Hn in L. change (10 ^ N.of_nat 6)%N with 1000000%N in L. lia.
+  - rewrite <- Hn at 1. now apply padn_digits.
+Qed.
+
+Lemma pad2_eq a b : dig2 a b = true -> padn 2 (num2 a b) = [a; b].
+Proof. intros H. apply streqb_eq. exact (implb_true _ _ (pad2 a b) H). Qed.
+
+Lemma range_59_61 a b : in_range2 0 59 a b = in_range2 0 61 a b && N.leb (num2 a b) 59.
+Proof. unfold in_range2. destruct (dig2 a b); [|reflexivity]. cbn [andb]. rewrite !leb0. cbn [andb]. bool_lia. Qed.
+
+Lemma smem_tm1 : smem (fmt_str [TH]) tm_formats = true. Proof. vm_compute. reflexivity. Qed.
+Lemma smem_tm2 : smem (fmt_str [TH; TMi]) tm_formats = true. Proof. vm_compute. reflexivity. Qed.
+Lemma smem_tm3 : smem (fmt_str [TH; TMi; TS]) tm_formats = true. Proof. vm_compute. reflexivity. Qed.
+Lemma smem_tm4 : smem (fmt_str [TH; TMi; TS; Tdot; Tf]) tm_formats = true. Proof. vm_compute. reflexivity. Qed.
+
+Ltac tm_plain :=
+  unfold tm_of_body, timestamp_format; cbn [length Nat.eqb bind fst snd];
+  rewrite strptime_exact by reflexivity;
+  cbn [map group_of width slices take drop firstn skipn forallb2 set_fields set_field dtv0 yr mo dy hh mi ss us];
+  rewrite ?matched_H, ?matched_M, ?matched_S, ?andb_true_r.
+
+Lemma take_app_len (x y : str) : take (length (x ++ y) - length y) (x ++ y) = x.
+Proof.
+  unfold take. rewrite app_length. replace (length x + length y - length y) with (length x) by lia.
+  rewrite firstn_app, Nat.sub_diag, firstn_all. cbn. apply app_nil_r.
+Qed.
+
+Lemma tm_frac_finish h1 h2 m1 m2 s1 s2 F off n :
+  off_okc off = true -> 1 <= length F <= 4 -> n = length F ->
+  let V := mk_dtv 1900 1 1 (txt_int [h1; h2]) (txt_int [m1; m2]) (txt_int [s1; s2]) (frac_us F) in
+  (do v <- (if in_range2 0 23 h1 h2 && (in_range2 0 59 m1 m2 && in_range2 0 61 s1 s2) && all_dig F
+            then if dtv_valid V then Ok V else Err PyValueError else Err PyValueError);
+   do _ <- tm_ctor tm_formats [TH; TMi; TS; Tdot; Tf] off n;
+   Ok (encode_tm v [TH; TMi; TS; Tdot; Tf] off n))%res =
+  (if spec_time ([h1; h2; m1; m2; s1; s2; c_dot] ++ F)
+   then Ok (([h1; h2; m1; m2; s1; s2; c_dot] ++ F) ++ off) else Err PyValueError).
+Proof.
+  intros Ho HF Hn V. subst V. cbn [spec_time app].
+  assert (nilb F = false) as -> by (destruct F; [cbn in HF; lia|reflexivity]).
+  assert ((length F <=? 4) = true) as -> by (apply Nat.leb_le; lia).
+  change (is_c c_dot c_dot) with true. cbn [negb andb].
+  destruct (in_range2 0 23 h1 h2) eqn:EH; [|reflexivity]. destruct (in_range2_inv _ _ _ _ EH) as [Dh Bh].
+  destruct (in_range2 0 59 m1 m2) eqn:EM; [|reflexivity]. destruct (in_range2_inv _ _ _ _ EM) as [Dm Bm].
+  rewrite range_59_61.
+  destruct (in_range2 0 61 s1 s2) eqn:ES; [|reflexivity]. destruct (in_range2_inv _ _ _ _ ES) as [Ds Bs].
+  cbn [andb]. destruct (all_dig F) eqn:EF; [|now rewrite andb_false_r].
+  destruct (frac_us_ok F EF) as [Hus Hpad]; [lia|].
+  rewrite (txt_int2 _ _ Dh), (txt_int2 _ _ Dm), (txt_int2 _ _ Ds), dtv_valid_time.
+  assert (N.leb (num2 h1 h2) 23 = true) as -> by (apply N.leb_le; lia).
+  assert (N.leb (num2 m1 m2) 59 = true) as -> by (apply N.leb_le; lia).
+  assert (N.leb (frac_us F) 999999 = true) as -> by (apply N.leb_le; lia).
+  rewrite !andb_true_r. cbn [andb].
+  destruct (N.leb (num2 s1 s2) 59); [|reflexivity]. cbn [bind].
+  rewrite (tm_ctor_ok _ _ _ _ smem_tm4) by (auto; lia). cbn [bind].
+  unfold encode_tm. cbn [has_f existsb is_Tf orb strftime flat_map strf_piece hh mi ss us].
+  rewrite (pad2_eq _ _ Dh), (pad2_eq _ _ Dm), (pad2_eq _ _ Ds), Hpad, app_nil_r.
+  assert ((6 - n =? 0) = false) as -> by (apply Nat.eqb_neq; lia).
+  subst n.
+  change ([h1; h2] ++ [m1; m2] ++ [s1; s2] ++ [c_dot] ++ F ++ repeat c_0 (6 - length F))
+    with ([h1; h2; m1; m2; s1; s2; c_dot] ++ F ++ repeat c_0 (6 - length F)).
+  rewrite app_assoc. rewrite <- (repeat_length c_0 (6 - length F)) at 2. rewrite take_app_len. reflexivity.
+Qed.
+
+Ltac tm_frac :=
+  unfold tm_of_body, timestamp_format; cbn [length Nat.eqb Nat.leb andb nth_error];
+  let Ep := fresh "Ep" in
+  match goal with |- context [beqb ?p c_dot] => destruct (beqb p c_dot) eqn:Ep end;
+  [ apply beqb_eq in Ep; subst; cbn [bind fst snd];
+    match goal with |- context [strptime ?s _] =>
+      change (strptime s [TH; TMi; TS; Tdot; Tf]) with (strptime s ([TH; TMi; TS] ++ [Tdot; Tf]));
+      rewrite (strptime_frac [TH; TMi; TS] s) by (try reflexivity; cbn; lia) end;
+    change (fmt_len [TH; TMi; TS]) with 6;
+    cbn [map group_of width slices take drop firstn skipn forallb2 Nat.add app set_fields set_field dtv0
+         yr mo dy hh mi ss us];
+    rewrite ?matched_H, ?matched_M, ?matched_S, ?andb_true_r
+  | cbn; unfold is_c; rewrite Ep; cbn; rewrite ?andb_false_r; reflexivity ].
+
+Theorem tm_body_exact body off : off_okc off = true ->
+  tm_of_body tm_formats body off = if spec_time body then Ok (body ++ off) else Err PyValueError.
+Proof.
+  intros Ho.
+  destruct body as [|h1 [|h2 [|m1 [|m2 [|s1 [|s2 [|p [|f1 [|f2 [|f3 [|f4 [|x r]]]]]]]]]]]].
+  - reflexivity.
+  - reflexivity.
+  - (* HH *)
+    tm_plain. cbn [spec_time]. rewrite andb_true_r.
+    destruct (in_range2 0 23 h1 h2) eqn:EH; [|reflexivity]. destruct (in_range2_inv _ _ _ _ EH) as [Dh Bh].
+    rewrite (txt_int2 _ _ Dh), dtv_valid_time, !leb0. cbn [andb].
+    assert (N.leb (num2 h1 h2) 23 = true) as -> by (apply N.leb_le; lia). cbn [andb bind].
+    rewrite (tm_ctor_ok _ _ _ _ smem_tm1) by (auto; lia). cbn [bind].
+    unfold encode_tm. cbn [has_f existsb is_Tf strftime flat_map strf_piece hh app]. now rewrite (pad2_eq _ _ Dh).
+  - cbn. now rewrite andb_false_r.
+  - (* HHMM *)
+    tm_plain. cbn [spec_time]. rewrite andb_true_r.
+    destruct (in_range2 0 23 h1 h2) eqn:EH; [|reflexivity]. destruct (in_range2_inv _ _ _ _ EH) as [Dh Bh].
+    destruct (in_range2 0 59 m1 m2) eqn:EM; [|reflexivity]. destruct (in_range2_inv _ _ _ _ EM) as [Dm Bm].
+    cbn [andb]. rewrite (txt_int2 _ _ Dh), (txt_int2 _ _ Dm), dtv_valid_time, !leb0.
+    assert (N.leb (num2 h1 h2) 23 = true) as -> by (apply N.leb_le; lia).
+    assert (N.leb (num2 m1 m2) 59 = true) as -> by (apply N.leb_le; lia). cbn [andb bind].
+    rewrite (tm_ctor_ok _ _ _ _ smem_tm2) by (auto; lia). cbn [bind].
+    unfold encode_tm. cbn [has_f existsb is_Tf strftime flat_map strf_piece hh mi app].
+    now rewrite (pad2_eq _ _ Dh), (pad2_eq _ _ Dm).
+  - cbn. now rewrite !andb_false_r.
+  - (* HHMMSS *)
+    tm_plain. cbn [spec_time]. rewrite andb_true_r.
+    destruct (in_range2 0 23 h1 h2) eqn:EH; [|reflexivity]. destruct (in_range2_inv _ _ _ _ EH) as [Dh Bh].
+    destruct (in_range2 0 59 m1 m2) eqn:EM; [|reflexivity]. destruct (in_range2_inv _ _ _ _ EM) as [Dm Bm].
+    rewrite range_59_61.
+    destruct (in_range2 0 61 s1 s2) eqn:ES; [|reflexivity]. destruct (in_range2_inv _ _ _ _ ES) as [Ds Bs].
+    cbn [andb]. rewrite (txt_int2 _ _ Dh), (txt_int2 _ _ Dm), (txt_int2 _ _ Ds), dtv_valid_time, !leb0.
+    assert (N.leb (num2 h1 h2) 23 = true) as -> by (apply N.leb_le; lia).
+    assert (N.leb (num2 m1 m2) 59 = true) as -> by (apply N.leb_le; lia). rewrite andb_true_r. cbn [andb].
+    destruct (N.leb (num2 s1 s2) 59); [|reflexivity]. cbn [bind].
+    rewrite (tm_ctor_ok _ _ _ _ smem_tm3) by (auto; lia). cbn [bind].
+    unfold encode_tm. cbn [has_f existsb is_Tf strftime flat_map strf_piece hh mi ss app].
+    now rewrite (pad2_eq _ _ Dh), (pad2_eq _ _ Dm), (pad2_eq _ _ Ds).
+  - (* 7 characters *)
+    cbn. now rewrite !andb_false_r.
+  - tm_frac. apply (tm_frac_finish h1 h2 m1 m2 s1 s2 [f1] off); auto; cbn; lia.
+  - tm_frac. apply (tm_frac_finish h1 h2 m1 m2 s1 s2 [f1; f2] off); auto; cbn; lia.
+  - tm_frac. apply (tm_frac_finish h1 h2 m1 m2 s1 s2 [f1; f2; f3] off); auto; cbn; lia.
+  - tm_frac. apply (tm_frac_finish h1 h2 m1 m2 s1 s2 [f1; f2; f3; f4] off); auto; cbn; lia.
+  - unfold tm_of_body, timestamp_format. cbn [length Nat.eqb Nat.leb andb bind].
+    cbn [spec_time length Nat.leb]. now rewrite !andb_false_r.
+Qed.
+
+
+(* ------------------------------------------------------------------ *)
+(* the offset layer, generic in the body recogniser                     *)
+
+Definition body_char (c : byte) : bool := is_digit c || is_c c_dot c || is_c c_space c.
+
+Lemma dig2_chars a b : dig2 a b = true -> body_char a = true /\ body_char b = true.
+Proof. unfold dig2, body_char. intros H. apply andb_prop in H. destruct H as [-> ->]. auto. Qed.
+
+Lemma forallb_mono {A} (p q : A -> bool) s : (forall c, p c = true -> q c = true) -> forallb p s = true -> forallb q s = true.
+Proof. intros Hpq H. rewrite forallb_forall in *. auto. Qed.
+
+Lemma all_dig_chars f : all_dig f = true -> forallb body_char f = true.
+Proof. apply forallb_mono. intros c H. unfold body_char. now rewrite H. Qed.
+
+Lemma spec_time_chars b : spec_time b = true -> forallb body_char b = true.
+Proof.
+  destruct b as [|h1 [|h2 r]]; try discriminate. cbn [spec_time]. intros H.
+  apply andb_prop in H. destruct H as [H1 H]. apply in_range2_dig, dig2_chars in H1. destruct H1 as [E1 E2].
+  cbn [forallb]. rewrite E1, E2. cbn [andb]. clear E1 E2.
+  destruct r as [|m1 [|m2 r]]; try discriminate; [reflexivity|].
+  apply andb_prop in H. destruct H as [H1 H]. apply in_range2_dig, dig2_chars in H1. destruct H1 as [E1 E2].
+  cbn [forallb]. rewrite E1, E2. cbn [andb]. clear E1 E2.
+  destruct r as [|s1 [|s2 r]]; try discriminate; [reflexivity|].
+  apply andb_prop in H. destruct H as [H1 H]. apply in_range2_dig, dig2_chars in H1. destruct H1 as [E1 E2].
+  cbn [forallb]. rewrite E1, E2. cbn [andb]. clear E1 E2.
+  destruct r as [|p f]; [reflexivity|].
+  apply andb_prop in H. destruct H as [H Hf]. apply andb_prop in H. destruct H as [H _].
+  apply andb_prop in H. destruct H as [Hp _].
+  cbn [forallb]. unfold body_char at 1. rewrite Hp, orb_true_r. cbn [orb andb]. now apply all_dig_chars.
+Qed.
+
+Lemma off_match_shape o : off_match o = true ->
+  exists sg r, o = sg :: r /\ (is_c c_plus sg || is_c c_minus sg) = true /\ all_dig r = true /\ length r = 4.
+Proof.
+  destruct o as [|sg [|h1 [|h2 [|m1 [|m2 [|x o]]]]]]; try discriminate.
+  unfold off_match. fold (rx_plus_h h1 h2). fold (rx_minus_h h1 h2). fold (rx_min m1 m2). intros H.
+  apply andb_prop in H. destruct H as [Hh Hm].
+  pose proof (in_range2_dig _ _ _ _ (implb_true _ _ (rx_min_range m1 m2) Hm)) as Dm.
+  exists sg, [h1; h2; m1; m2].
+  assert (Dh : dig2 h1 h2 = true /\ (is_c c_plus sg || is_c c_minus sg) = true).
+  { apply orb_prop in Hh. destruct Hh as [Hh|Hh]; apply andb_prop in Hh; destruct Hh as [Hs Hh]; rewrite Hs.
+    - split; [|reflexivity]. exact (in_range2_dig _ _ _ _ (implb_true _ _ (rx_plus_h_range h1 h2) Hh)).
+    - split; [|apply orb_true_r]. exact (in_range2_dig _ _ _ _ (implb_true _ _ (rx_minus_h_range h1 h2) Hh)). }
+  destruct Dh as [Dh Hs]. repeat split; auto.
+  unfold dig2 in Dh, Dm. apply andb_prop in Dh. apply andb_prop in Dm. destruct Dh as [A1 A2]. destruct Dm as [A3 A4].
+  cbn. now rewrite A1, A2, A3, A4.
+Qed.
+
+Lemma sign_not_body sg : (is_c c_plus sg || is_c c_minus sg) = true -> body_char sg = false.
+Proof. intros H. apply orb_prop in H. destruct H as [H|H]; apply beqb_eq in H; subst; reflexivity. Qed.
+
+Lemma bmem_false_of_forallb (p : byte -> bool) c s : forallb p s = true -> p c = false -> bmem c s = false.
+Proof.
+  intros H Hc. destruct (bmem c s) eqn:E; auto. unfold bmem, mem in E. apply existsb_exists in E.
+  destruct E as [x [Hx Ex]]. apply beqb_eq in Ex. subst. rewrite forallb_forall in H. rewrite (H _ Hx) in Hc. discriminate.
+Qed.
+
+Lemma forallb_In_false (p : byte -> bool) c s : In c s -> p c = false -> forallb p s = false.
+Proof.
+  intros Hi Hc. destruct (forallb p s) eqn:E; auto. rewrite forallb_forall in E. rewrite (E _ Hi) in Hc. discriminate.
+Qed.
+
+Lemma off_no_nl o : off_match o = true -> o <> [] /\ bmem c_nl o = false.
+Proof.
+  intros H. destruct (off_match_shape o H) as [sg [r [-> [Hs [Hr _]]]]]. split; [discriminate|].
+  unfold bmem, mem. cbn [existsb]. fold (mem beqb c_nl r). fold (bmem c_nl r).
+  rewrite (bmem_false_of_forallb is_digit c_nl r Hr eq_refl), orb_false_r.
+  apply orb_prop in Hs. destruct Hs as [Hs|Hs]; apply beqb_eq in Hs; subst; reflexivity.
+Qed.
+
+Lemma off_at_end_inv s o : off_at_end s = Some o ->
+  5 <= length s /\ off_match o = true /\ o = drop (length s - 5) s /\ s = take (length s - 5) s ++ o.
+Proof.
+  unfold off_at_end, last5. destruct (5 <=? length s) eqn:L; [|discriminate]. cbn [andb].
+  destruct (off_match (drop (length s - 5) s)) eqn:M; [|discriminate]. intros H. injection H as <-.
+  apply Nat.leb_le in L. repeat split; auto. unfold take, drop. now rewrite firstn_skipn.
+Qed.
+
+Lemma ends_nl_inv s : ends_nl s = true -> s = removelast s ++ [c_nl].
+Proof.
+  unfold ends_nl. destruct (rev s) as [|c l] eqn:E; [discriminate|]. intros H. apply beqb_eq in H. subst c.
+  assert (s = rev l ++ [c_nl]) as -> by (rewrite <- (rev_involutive s), E; reflexivity).
+  now rewrite removelast_last.
+Qed.
+
+Inductive split_case (s : str) : Prop :=
+  | SC_off o p : s = p ++ o -> off_match o = true -> off_at_end s = Some o ->
+      take (length s - 5) s = p -> drop (length s - 5) s = o -> 5 <= length s ->
+      split_offset s = (remove_all o 0 s, o) -> split_case s
+  | SC_none : off_at_end s = None -> split_offset s = (s, []) -> split_case s
+  | SC_nl s' o : off_at_end s = None -> s = s' ++ [c_nl] -> off_match o = true ->
+      split_offset s = (remove_all o 0 s' ++ [c_nl], o) -> split_case s.
+
+Lemma split_cases s : split_case s.
+Proof.
+  destruct (off_at_end s) as [o|] eqn:E.
+  - destruct (off_at_end_inv _ _ E) as [L [M [Ho Hs]]].
+    apply (SC_off s o (take (length s - 5) s)); auto.
+    unfold split_offset, offset_found. now rewrite E.
+  - destruct (ends_nl s) eqn:N.
+    + destruct (off_at_end (removelast s)) as [o|] eqn:E2.
+      * destruct (off_at_end_inv _ _ E2) as [_ [M _]]. pose proof (ends_nl_inv s N) as Hs.
+        destruct (off_no_nl o M) as [Hne Hnl].
+        apply (SC_nl s (removelast s) o); auto.
+        unfold split_offset, offset_found. rewrite E, N, E2. rewrite Hs at 1.
+        rewrite (remove_all_snoc o c_nl Hne Hnl) by lia. reflexivity.
+      * apply SC_none; auto. unfold split_offset, offset_found. now rewrite E, N, E2.
+    + apply SC_none; auto. unfold split_offset, offset_found. now rewrite E, N.
+Qed.
+
+Section OffsetLayer.
+Variable B : str -> bool.
+Variable run : str -> str -> result str.
+Variable enc : str -> str.
+Hypothesis Bchars : forall b, B b = true -> forallb body_char b = true.
+Hypothesis Hrun : forall b o, off_okc o = true -> run b o = if B b then Ok (enc b ++ o) else Err PyValueError.
+
+Definition impl_off (s : str) : result str := run (fst (split_offset s)) (snd (split_offset s)).
+
+Lemma B_false_of_char c s : In c s -> body_char c = false -> B s = false.
+Proof.
+  intros Hi Hc. destruct (B s) eqn:E; auto. apply Bchars in E. rewrite (forallb_In_false _ _ _ Hi Hc) in E. discriminate.
+Qed.
+
+Lemma B_prefix_clean p o : off_match o = true -> B p = true -> remove_all o 0 (p ++ o) = p.
+Proof.
+  intros M HB. destruct (off_match_shape o M) as [sg [r [-> [Hs _]]]].
+  apply remove_all_clean. apply (bmem_false_of_forallb body_char); [now apply Bchars|now apply sign_not_body].
+Qed.
+
+Lemma B_with_sign p o : off_match o = true -> B (p ++ o) = false.
+Proof.
+  intros M. destruct (off_match_shape o M) as [sg [r [-> [Hs _]]]].
+  apply (B_false_of_char sg); [apply in_or_app; right; now left|now apply sign_not_body].
+Qed.
+
+Lemma with_offset_off p o : off_match o = true -> length o = 5 -> with_offset B (p ++ o) = B p.
+Proof.
+  intros M L. unfold with_offset. rewrite (B_with_sign p o M). cbn [orb].
+  rewrite app_length, L. replace (length p + 5 - 5) with (length p) by lia.
+  unfold take, drop. rewrite firstn_app, Nat.sub_diag, firstn_all, skipn_app, Nat.sub_diag, skipn_all. cbn [firstn skipn app].
+  rewrite app_nil_r, <- off_match_spec, M, andb_true_r.
+  assert ((5 <=? length p + 5) = true) as -> by (apply Nat.leb_le; lia). reflexivity.
+Qed.
+
+Lemma with_offset_none s : off_at_end s = None -> with_offset B s = B s.
+Proof.
+  unfold off_at_end, last5, with_offset. intros H. rewrite <- off_match_spec.
+  destruct (5 <=? length s); [|now rewrite orb_false_r]. cbn [andb] in *.
+  destruct (off_match (drop (length s - 5) s)); [discriminate|]. now rewrite andb_false_r, orb_false_r.
+Qed.
+
+Theorem offset_layer s : accepts (impl_off s) = with_offset B s || offset_defect B s.
+Proof.
+  unfold impl_off, offset_defect. destruct (split_cases s) as [o p Hs M E Ht Hd L Hsp|E Hsp|s' o E Hs M Hsp];
+    rewrite Hsp, E; cbn [fst snd].
+  - rewrite Hrun by (unfold off_okc; rewrite M; apply orb_true_r). rewrite accepts_if, Ht.
+    destruct (off_match_shape o M) as [sg [r [Ho [_ [_ Lr]]]]].
+    assert (Lo : length o = 5) by (rewrite Ho; cbn [length]; lia).
+    rewrite Hs at 2. rewrite (with_offset_off p o M Lo).
+    destruct (streqb (remove_all o 0 s) p) eqn:Q.
+    + apply streqb_eq in Q. rewrite Q. cbn [negb andb]. now rewrite orb_false_r.
+    + cbn [negb andb]. destruct (B p) eqn:Bp; [|reflexivity].
+      rewrite Hs, (B_prefix_clean p o M Bp), streqb_refl in Q. discriminate.
+  - rewrite Hrun by reflexivity. rewrite accepts_if, orb_false_r. symmetry. now apply with_offset_none.
+  - rewrite Hrun by (unfold off_okc; rewrite M; apply orb_true_r). rewrite accepts_if, orb_false_r, (with_offset_none s E).
+    rewrite (B_false_of_char c_nl (remove_all o 0 s' ++ [c_nl])) by (auto; apply in_or_app; right; now left).
+    rewrite Hs. symmetry. apply (B_false_of_char c_nl); [apply in_or_app; right; now left|reflexivity].
+Qed.
+
+(* conforming values are re-encoded unchanged *)
+Theorem offset_roundtrip s e : (forall b, B b = true -> enc b = b) ->
+  impl_off s = Ok e -> with_offset B s = true -> e = s.
+Proof.
+  intros Henc. unfold impl_off. destruct (split_cases s) as [o p Hs M E Ht Hd L Hsp|E Hsp|s' o E Hs M Hsp];
+    rewrite Hsp; cbn [fst snd]; intros Hi Hw.
+  - rewrite Hrun in Hi by (unfold off_okc; rewrite M; apply orb_true_r).
+    destruct (off_match_shape o M) as [sg [r [Ho [_ [_ Lr]]]]].
+    assert (Lo : length o = 5) by (rewrite Ho; cbn [length]; lia).
+    rewrite Hs, (with_offset_off p o M Lo) in Hw.
+    rewrite Hs, (B_prefix_clean p o M Hw), Hw, (Henc p Hw) in Hi. apply Ok_inj in Hi. now subst.
+  - rewrite Hrun in Hi by reflexivity. rewrite (with_offset_none s E) in Hw. rewrite Hw, (Henc s Hw) in Hi.
+    apply Ok_inj in Hi. rewrite app_nil_r in Hi. now subst.
+  - rewrite Hrun in Hi by (unfold off_okc; rewrite M; apply orb_true_r).
+    rewrite (B_false_of_char c_nl (remove_all o 0 s' ++ [c_nl])) in Hi by (auto; apply in_or_app; right; now left).
+    discriminate.
+Qed.
+
+(* what a value with a repeated offset is re-encoded to *)
+Theorem offset_defect_reencodes s e : (forall b, B b = true -> enc b = b) ->
+  impl_off s = Ok e -> offset_defect B s = true -> e = dedup_offset s.
+Proof.
+  intros Henc. unfold impl_off, offset_defect, dedup_offset.
+  destruct (split_cases s) as [o p Hs M E Ht Hd L Hsp|E Hsp|s' o E Hs M Hsp]; rewrite Hsp, E; cbn [fst snd];
+    intros Hi Hw; try discriminate.
+  rewrite Hrun in Hi by (unfold off_okc; rewrite M; apply orb_true_r).
+  apply andb_prop in Hw. destruct Hw as [_ Hb]. rewrite Hb, (Henc _ Hb) in Hi. apply Ok_inj in Hi. now subst.
+Qed.
+
+(* nothing but ValueError is ever raised *)
+Theorem offset_only_valueerror s x : impl_off s = Err x -> x = PyValueError.
+Proof.
+  unfold impl_off. destruct (split_cases s) as [o p Hs M E Ht Hd L Hsp|E Hsp|s' o E Hs M Hsp];
+    rewrite Hsp; cbn [fst snd]; rewrite Hrun by (try reflexivity; unfold off_okc; rewrite M; apply orb_true_r);
+    destruct (B _); intros H; congruence.
+Qed.
+
+(* an accepted value is the encoding of its body followed by its offset *)
+Theorem offset_decompose s e : impl_off s = Ok e ->
+  exists b o, B b = true /\ e = enc b ++ o /\
+    ((off_at_end s = None /\ b = s /\ o = []) \/
+     (off_at_end s = Some o /\ b = remove_all o 0 s /\ off_match o = true /\ s = take (length s - 5) s ++ o)).
+Proof.
+  unfold impl_off. destruct (split_cases s) as [o p Hs M E Ht Hd L Hsp|E Hsp|s' o E Hs M Hsp];
+    rewrite Hsp; cbn [fst snd]; intros Hi.
+  - rewrite Hrun in Hi by (unfold off_okc; rewrite M; apply orb_true_r).
+    destruct (B (remove_all o 0 s)) eqn:Bb; [|discriminate]. apply Ok_inj in Hi.
+    exists (remove_all o 0 s), o. repeat split; auto. right. repeat split; auto. now rewrite Ht.
+  - rewrite Hrun in Hi by reflexivity. destruct (B s) eqn:Bb; [|discriminate]. apply Ok_inj in Hi.
+    exists s, []. repeat split; auto.
+  - rewrite Hrun in Hi by (unfold off_okc; rewrite M; apply orb_true_r).
+    rewrite (B_false_of_char c_nl (remove_all o 0 s' ++ [c_nl])) in Hi by (auto; apply in_or_app; right; now left).
+    discriminate.
+Qed.
+End OffsetLayer.
+
+(* ---- TM ---- *)
+Lemma tm_run b o : off_okc o = true ->
+  tm_of_body tm_formats b o = if spec_time b then Ok (b ++ o) else Err PyValueError.
+Proof. apply tm_body_exact. Qed.
+
+Lemma impl_TM_off s : impl_TM s = impl_off (tm_of_body tm_formats) s.
+Proof. apply impl_TM_body. Qed.
+
+Theorem accept_TM_exact s : accepts (impl_TM s) = spec_TM s || offset_defect spec_time s.
+Proof. rewrite impl_TM_off. apply (offset_layer spec_time _ (fun b => b)); [apply spec_time_chars|apply tm_run]. Qed.
+
+Theorem roundtrip_TM s e : impl_TM s = Ok e -> spec_TM s = true -> e = s.
+Proof. rewrite impl_TM_off. apply (offset_roundtrip spec_time _ (fun b => b)); [apply spec_time_chars|apply tm_run|auto]. Qed.
+
+Theorem TM_defect_reencodes s e : impl_TM s = Ok e -> offset_defect spec_time s = true -> e = dedup_offset s.
+Proof. rewrite impl_TM_off. apply (offset_defect_reencodes spec_time _ (fun b => b)); [apply tm_run|auto]. Qed.
+
+Theorem TM_only_valueerror s x : impl_TM s = Err x -> x = PyValueError.
+Proof. rewrite impl_TM_off. apply (offset_only_valueerror spec_time _ (fun b => b)), tm_run. Qed.
+
+Theorem DT_only_valueerror s x : impl_DT s = Err x -> x = PyValueError.
+Proof.
+  destruct s as [|a [|b [|c [|d [|m1 [|m2 [|d1 [|d2 [|y r]]]]]]]]];
+    try (rewrite impl_DT_badlen by (cbn; lia); congruence).
+  - rewrite impl_DT_4. destruct (_ && _); congruence.
+  - rewrite impl_DT_6. destruct (_ && _); congruence.
+  - rewrite impl_DT_8. destruct (_ && _); congruence.
+Qed.
